@@ -12,7 +12,9 @@
 //!                        `mix` (a pass-through of the component's output, settled before the edge) = d_{k-1};
 //!                        after the last edge the simulator holds q_comp = d_N, q_rtl = known(d_N).
 //!   instance seed        `BuildCtx::seed()` of the echo instance = FNV-1a(base seed, "hx_t", "echo") (C32 `instance_seed`).
-//! Request: `run <seed> <config index>`; reply `echo=..;probe=a/b/c,..;final=q_comp/q_rtl;seed=..`.
+//!   accessors            the echo uses read/write, read_u64/write_u64 (width <= 64) or read_words/write_words (per run);
+//!                        the scalar/word accessors carry payload bits only (x reads 0, z reads 1, no X/Z driven).
+//! Request: `run <seed> <config index> [<width> <mode>]` (width/mode forced for the boundary sweep); reply `echo=..;probe=a/b/c,..;final=q_comp/q_rtl;seed=..`.
 use crate::dom_svlv::gen_bits;
 use crate::dom_words::{ECHO, SEEDS, SEEN};
 use crate::rng::Rng;
@@ -29,7 +31,8 @@ use veryl_simulator::testbench::{TestResult, build_clock_periods, build_event_ma
 type Seen = (Vec<u64>, Vec<u64>, u32);
 pub static PROBED: Mutex<Vec<[Seen; 3]>> = Mutex::new(Vec::new());
 
-/// Reads three inputs at every clock edge and records them; drives a 1-bit heartbeat.
+/// Reads three inputs at every clock edge (`a`, `b` with `read`, `c` with `read_words`) and records
+/// them; drives a 1-bit heartbeat with `write_u64`.
 pub struct Probe {
     #[allow(dead_code)]
     clk: ClockPort,
@@ -53,10 +56,14 @@ impl Component for Probe {
                 _ => (vec![], vec![], 0),
             }
         };
-        let rec = [grab(ctx, self.a), grab(ctx, self.b), grab(ctx, self.c)];
+        // `c` is read through the word accessor (payload only), `a` and `b` through the `Value` API
+        let mut buf = vec![0u64; self.c.words()];
+        ctx.read_words(self.c, &mut buf);
+        let c_seen: Seen = (buf.clone(), vec![0; buf.len()], self.c.width());
+        let rec = [grab(ctx, self.a), grab(ctx, self.b), c_seen];
         PROBED.lock().unwrap().push(rec);
         let cycle = ctx.cycle();
-        ctx.write(self.beat, cycle & 1);
+        ctx.write_u64(self.beat, cycle & 1);
         Ok(())
     }
 }
@@ -77,7 +84,7 @@ fn seen_bits(s: &Seen) -> String {
         .collect()
 }
 
-const WIDTHS: &[usize] = &[1, 2, 8, 31, 32, 33, 63, 64, 65, 100, 127, 128, 129, 192, 255, 256, 257, 300];
+const WIDTHS: &[usize] = &[1, 2, 8, 31, 32, 33, 63, 64, 65, 95, 96, 97, 100, 127, 128, 129, 159, 160, 161, 191, 192, 193, 255, 256, 257, 300];
 
 /// MSB-first literal digits of a `width`-bit value; X/Z only when `xz`.
 fn gen_digits(r: &mut Rng, width: usize, xz: bool) -> String {
@@ -97,7 +104,7 @@ fn gen_digits(r: &mut Rng, width: usize, xz: bool) -> String {
         .collect()
 }
 
-fn run(seed: u64, cfg_idx: usize, log: &mut Log) -> Result<(String, String), String> {
+fn run(seed: u64, cfg_idx: usize, forced: Option<(usize, u64)>, log: &mut Log) -> Result<(String, String), String> {
     REGISTER.call_once(|| {
         register_static_component("hx_echo", &ECHO);
         register_static_component("hx_probe", &PROBE);
@@ -105,7 +112,17 @@ fn run(seed: u64, cfg_idx: usize, log: &mut Log) -> Result<(String, String), Str
     let mut r = Rng::new(seed);
     let cfgs = configs();
     let config = cfgs.get(cfg_idx).ok_or("bad config index")?.clone();
-    let w = if r.chance(1, 2) { *r.pick(WIDTHS) } else { r.range(1, 300) as usize };
+    let w = if r.chance(2, 3) { *r.pick(WIDTHS) } else { r.range(1, 300) as usize };
+    // accessor pair of the echo component: 0 read/write, 1 read_u64/write_u64 (scalar ports), 2 read_words/write_words
+    let mode = match r.below(3) {
+        1 if w <= 64 => 1,
+        0 => 0,
+        _ => 2,
+    };
+    let (w, mode) = forced.unwrap_or((w, mode));
+    if w == 0 || w > 4096 || mode > 2 || (mode == 1 && w > 64) {
+        return Err("bad forced width/mode".into());
+    }
     let n = r.range(2, 6) as usize;
     let ds: Vec<String> = (0..n)
         .map(|_| {
@@ -152,7 +169,7 @@ module hx_t {{
 
     inst dut: HxDut (clk, rst, d: dk, q_rtl);
 
-    inst echo: $comp::hx_echo (
+    inst echo: $comp::hx_echo #( MODE: {mode} ) (
         clk,
         d,
         q: q_comp,
@@ -200,16 +217,28 @@ module hx_t {{
     let iseed = SEEDS.lock().unwrap().last().copied();
     let imp = format!("echo={};probe={};final={};seed={}", echo.join(","), probed.join(","), fin, iseed.map(|x| format!("{x:x}")).unwrap_or("none".into()));
     // oracle: straight from the driven values
-    let o_probe: Vec<String> = ds[..n - 1].iter().map(|d| format!("{d}/{}/{d}", known(d))).collect();
+    let flat = |d: &String| -> String {
+        if mode == 0 { d.clone() } else { d.chars().map(|c| if c == '1' || c == 'z' { '1' } else { '0' }).collect() }
+    };
+    let payload_only = |d: &String| -> String { d.chars().map(|c| if c == '1' || c == 'z' { '1' } else { '0' }).collect() };
+    let o_probe: Vec<String> = ds[..n - 1].iter().map(|d| format!("{}/{}/{}", flat(d), known(d), payload_only(d))).collect();
     // per-instance seed: FNV-1a (64 bit) over base.to_le_bytes() ++ test name ++ instance name
     let mut h: u64 = 14695981039346656037;
     for b in seed.to_le_bytes().iter().chain(b"hx_t".iter()).chain(b"echo".iter()) {
         h = (h ^ *b as u64).wrapping_mul((1u64 << 40) + (1 << 8) + 0xb3);
     }
-    let ora = format!("echo={};probe={};final={}/{};seed={h:x}", ds.join(","), o_probe.join(","), ds[n - 1], known(&ds[n - 1]));
+    let o_echo: Vec<String> = ds.iter().map(flat).collect();
+    let ora = format!("echo={};probe={};final={}/{};seed={h:x}", o_echo.join(","), o_probe.join(","), flat(&ds[n - 1]), known(&ds[n - 1]));
     log.count(&format!("config.{}", config_name(&config)));
     log.count(&format!("width.{}", if w <= 64 { "le64" } else if w <= 128 { "65-128" } else { "gt128" }));
     log.add("edges", n as u64);
+    log.count(&format!("mode{mode}"));
+    if w % 64 == 0 {
+        log.count(&format!("mode{mode}.width_mult64"));
+    }
+    if w % 32 == 0 {
+        log.count("width_mult32");
+    }
     log.add("values_with_xz", ds.iter().filter(|d| d.contains('x') || d.contains('z')).count() as u64);
     Ok((imp, ora))
 }
@@ -222,20 +251,37 @@ pub fn main(opts: &Opts) -> i32 {
     } else {
         let mut r = Rng::new(opts.seed() ^ 0x63_6f_6d_70);
         let ncfg = configs().len();
-        (0..opts.num("n", 16)).map(|i| format!("run {:x} {:x}", r.next(), (i as usize) % ncfg)).collect()
+        let mut v: Vec<String> = vec![];
+        // every accessor pair on exact multiples of 64 / 32 and their neighbours, cycling through the configurations
+        let mut k = 0usize;
+        for w in [64usize, 128, 192, 256, 32, 96, 63, 65, 127, 129, 1] {
+            for mode in 0..3u64 {
+                if mode == 1 && w > 64 {
+                    continue;
+                }
+                v.push(format!("run {:x} {:x} {:x} {}", r.next(), k % ncfg, w, mode));
+                k += 1;
+            }
+        }
+        v.extend((0..opts.num("n", 16)).map(|i| format!("run {:x} {:x}", r.next(), (i as usize) % ncfg)));
+        v
     };
     std::panic::set_hook(Box::new(|_| {}));
     for l in &lines {
         let t: Vec<&str> = l.split(' ').collect();
         let parsed = match t.as_slice() {
-            ["run", s, c] => u64::from_str_radix(s, 16).ok().zip(usize::from_str_radix(c, 16).ok()),
+            ["run", s, c] => u64::from_str_radix(s, 16).ok().zip(usize::from_str_radix(c, 16).ok()).map(|x| (x.0, x.1, None)),
+            ["run", s, c, w, m] => match (u64::from_str_radix(s, 16), usize::from_str_radix(c, 16), usize::from_str_radix(w, 16), m.parse::<u64>()) {
+                (Ok(s), Ok(c), Ok(w), Ok(m)) => Some((s, c, Some((w, m)))),
+                _ => None,
+            },
             _ => None,
         };
-        let Some((seed, cfg)) = parsed else {
+        let Some((seed, cfg, forced)) = parsed else {
             log.push3(l.clone(), "bad-op".into(), "bad-op".into());
             continue;
         };
-        match catch_unwind(AssertUnwindSafe(|| run(seed, cfg, &mut log))) {
+        match catch_unwind(AssertUnwindSafe(|| run(seed, cfg, forced, &mut log))) {
             Ok(Ok((imp, ora))) => {
                 if imp.len() < 300 {
                     log.sample(format!("{l} -> {imp}"));
